@@ -27,6 +27,7 @@ EXTENDS Naturals, Sequences, FiniteSets, TLC
 
 CONSTANTS Paths, Grammars, Dirs, Contents, InitC, MaxClock, MaxCalls, MaxFaults,
           StatBeforeRead, CompareChangeTime, TolerantLoad, Hist,
+          DiffModes, \* subset of BOOLEAN: may calls use diff_cache=True ?
           EnvSet     \* which environment actions are enabled: subset of {"Tick","Write","Restart","Evict","RemoveFile","Damage","OtherCall","Crash"}
 
 None == [none |-> TRUE]
@@ -47,7 +48,7 @@ vars == <<clock, file, mem, mem2, disk, call, ncalls, nfaults, seen, result, his
 
 Idle == [pc |-> "idle", g |-> CHOOSE x \in Grammars : TRUE, p |-> CHOOSE x \in Paths : TRUE,
          d |-> CHOOSE x \in Dirs : TRUE, pt |-> 0, ct |-> 0, content |-> CHOOSE x \in Contents : TRUE,
-         loaded |-> None]
+         loaded |-> None, diff |-> FALSE]
 Log(e) == hist' = IF Hist THEN Append(hist, e) ELSE hist
 
 Init ==
@@ -113,11 +114,12 @@ OtherCall(g, p, d) ==
   /\ UNCHANGED <<clock, file, mem, call, nfaults, seen, result>>
 
 (* ------------------------------ the call ------------------------------ *)
-Start(g, p, d) ==
+(* df: the call also passes diff_cache=True (incremental re-parse against the in-memory entry) *)
+Start(g, p, d, df) ==
   /\ call.pc = "idle" /\ ncalls < MaxCalls /\ ncalls' = ncalls + 1
-  /\ call' = [Idle EXCEPT !.pc = "stat1", !.g = g, !.p = p, !.d = d]
+  /\ call' = [Idle EXCEPT !.pc = "stat1", !.g = g, !.p = p, !.d = d, !.diff = df]
   /\ seen' = {file[p].c} /\ result' = None
-  /\ Log(<<"Start", g, p, d>>)
+  /\ Log(<<"Start", g, p, d, df>>)
   /\ UNCHANGED <<clock, file, mem, mem2, disk, nfaults>>
 
 Step(name) == /\ Log(<<name>>) /\ UNCHANGED <<clock, file, mem2, ncalls, nfaults, seen>>
@@ -171,11 +173,16 @@ Read ==
   /\ call' = [call EXCEPT !.pc = IF StatBeforeRead THEN "store" ELSE "statct", !.content = file[call.p].c]
   /\ Step("Read") /\ UNCHANGED <<mem, disk, result>>
 
-Store ==     \* parse, memory store
+Store ==     \* parse (or, with diff_cache, update the in-memory module in place), memory store
   /\ call.pc = "store"
-  /\ mem' = [mem EXCEPT ![<<call.g, call.p>>] = [t |-> Tree(call.g, call.p, call.content), ct |-> call.ct]]
-  /\ Goto("diskstore")
-  /\ Step("Store") /\ UNCHANGED <<disk, result>>
+  /\ LET e == mem[<<call.g, call.p>>] IN
+     IF call.diff /\ e # None /\ e.t = Tree(call.g, call.p, call.content)
+     THEN \* diff_cache: old_lines == lines -> the cached module is returned as it is, nothing is saved
+          /\ ReturnTree(e.t) /\ RetLog("Store", e.t)
+          /\ UNCHANGED <<clock, file, mem2, ncalls, nfaults, seen, mem, disk>>
+     ELSE /\ mem' = [mem EXCEPT ![<<call.g, call.p>>] = [t |-> Tree(call.g, call.p, call.content), ct |-> call.ct]]
+          /\ Goto("diskstore")
+          /\ Step("Store") /\ UNCHANGED <<disk, result>>
 
 DiskStore ==
   /\ call.pc = "diskstore"
@@ -203,7 +210,7 @@ Env == \/ "Tick" \in EnvSet /\ Tick
              \/ "Damage" \in EnvSet /\ Damage(d, g, p)
              \/ "OtherCall" \in EnvSet /\ OtherCall(g, p, d)
 Done == ncalls = MaxCalls /\ call.pc = "idle"
-Next == ~Done /\ (CallStep \/ ("Crash" \in EnvSet /\ CrashInStore) \/ Env \/ \E g \in Grammars, p \in Paths, d \in Dirs : Start(g, p, d))
+Next == ~Done /\ (CallStep \/ ("Crash" \in EnvSet /\ CrashInStore) \/ Env \/ \E g \in Grammars, p \in Paths, d \in Dirs, df \in DiffModes : Start(g, p, d, df))
 Emit == (Hist /\ Done) => PrintT(<<"HIST", hist>>)
 Spec == Init /\ [][Next]_vars
 
